@@ -79,6 +79,14 @@ def _c02_sat(args):
     return [o for o in out if o is not None]
 
 
+def _c02_program(args):
+    seeds, steps = args
+    from .. import x_program
+    fx = common.import_fxpmath()
+    import numpy as np
+    return [x_program.run_program(fx, np, sd, steps) for sd in seeds]
+
+
 def _c20_chain(args):
     """x[i][j] = v on 2-D objects (and x[i][a:b][k] = v, x[:, j][i] = v): the literal chained indexed assignment of C20"""
     seed, count = args
@@ -154,6 +162,12 @@ def run(chk):
     if pid == 'C20':
         n = 640 if tier == 'quick' else 20000
         for part in core.parallel_map(_c20_chain, [(chk.seed * 1000 + i, n // core.NPROC + 1) for i in range(core.NPROC)]):
+            flagrows += part
+    if pid == 'C02':
+        # direction B: seeded random programs of public operations on core-domain formats; every returned object is judged as it reports itself
+        nprog = 160 if tier == 'quick' else 6000
+        seeds = [chk.seed * 100000 + i for i in range(nprog)]
+        for part in core.parallel_map(_c02_program, [(seeds[i::core.NPROC], 60) for i in range(core.NPROC)]):
             flagrows += part
     sat = []
     if pid == 'C02':
